@@ -510,3 +510,8 @@ pub fn run(engine: &Engine, tier: &str, seed: u64) -> i32 {
 fn run_tail(ctx: &Ctx, sc: &Scenario) -> crate::scenario::Outcome {
     crate::scenario::run_ops(ctx, sc, false)
 }
+
+pub fn sequence_for_selftest(pool: &Pool, seed: u64, n: u64) -> Scenario {
+    let mut rng = Rng::derive(seed, 100_000 + n);
+    sequence_scenario(pool, &mut rng, seed, n as usize)
+}
